@@ -1,0 +1,18 @@
+//go:build verif
+
+package inactivity
+
+import (
+	"sync/atomic"
+	"time"
+)
+
+// VerifNow, when set by the verification harness, supplies the time that Notify stamps.
+var VerifNow atomic.Pointer[func() time.Time]
+
+// verifRestamp re-stamps the activity with the harness clock (no-op unless a clock is installed).
+func verifRestamp(lastActivity *atomic.Value) {
+	if f := VerifNow.Load(); f != nil {
+		lastActivity.Store((*f)())
+	}
+}
